@@ -296,7 +296,17 @@ class Gen:
             if kind == "arr" and n > 1 and ch.chance(1, 2):
                 w = shape * n  # per-element wiring
             if kind == "pair" and shape == 1 and ch.chance(1, 2):
-                x = self.gen_diff(mc, info.get("bid", DIFF))
+                if self.cfg["anon"] and ch.chance(1, 2):
+                    # member-wise wiring through an anonymous bundle / dict, members in any order
+                    members = ch.shuffle(list(self.d.bundles[info.get("bid", DIFF)]["sigs"]), "pairmembers")
+                    body = {mem: self.gen_scalar(mc, 1, 1, (iname, port), allow_pr=False, allow_nc=False) for mem in members}
+                    if ch.chance(1, 2):
+                        mc.nmemo += 1
+                        x = ["an", mc.nmemo, body]
+                    else:
+                        x = ["d", body]
+                else:
+                    x = self.gen_diff(mc, info.get("bid", DIFF))
             else:
                 x = self.gen_scalar(mc, w, 0, (iname, port), allow_pr=allow_pr and w == shape, allow_nc=(kind == "inst"), todo=todo)
         elif kind == "inst" and self.cfg["noconn"] and (iname, port) not in mc.referenced and ch.chance(1, 8):
@@ -332,6 +342,14 @@ class Gen:
             key = (iname, port)
             if key in mc.implicit:
                 continue
+            if not final and isinstance(shape, int) and mc.m.insts[iname]["kind"] == "inst" and ch.chance(1, 12):
+                # a mistyped port name: connected, noticed, disconnected again
+                names = self._scalar_sources(mc, shape, True)
+                if names:
+                    typo = port + "x"
+                    if typo not in self.d.target_ports(mc.m.insts[iname]["target"]):
+                        self.emit(["conn", mc.mid, iname, typo, ["s", ch.pick(names, "typosig")], "connect"])
+                        self.emit(["disc", mc.mid, iname, typo])
             if final and key in mc.assigned and mc.m.insts[iname]["kind"] == "inst" and mc.assigned[key][0] != "nc" and ch.chance(1, 8):
                 # release: the port is disconnected for good and stays implicit, referenced by others -
                 # by references taken before the disconnect and by one taken right after it
